@@ -507,7 +507,15 @@ impl GRLParser {
         // Use DOTALL flag to match newlines in rule body
         let mut rules = Vec::new();
 
-        for rule_match in rule_split_regex().find_iter(grl_text) {
+        // Comments are not part of the text: remove them before the text is cut into rules, so
+        // that a `}` or a rule header inside a comment neither ends a rule nor starts one.
+        let uncommented = grl_text
+            .lines()
+            .map(Self::strip_line_comment)
+            .collect::<Vec<_>>()
+            .join("\n");
+
+        for rule_match in rule_split_regex().find_iter(&uncommented) {
             let rule_text = rule_match.as_str();
             let rule = self.parse_single_rule(rule_text)?;
             rules.push(rule);
